@@ -15,6 +15,7 @@ Not decided: programs beyond the bound whose trees go through helper-laden refer
 """
 from __future__ import annotations
 
+import itertools
 import re
 import time
 
@@ -57,6 +58,15 @@ def standin(rep: Report):
         progs.extend(pool.split_statements(f)[: (40 if rep.tier == "quick" else 400)])
     progs += ["if a:\n    if b:\n        c\n    \f    d\n", "x = 1\n \fy = 2\n", "if a:\n\tb\n\tif c:\n\t\td\n\te\n", "x = (1 +\n     2)\n", "class A:\n    def f(self):\n        return 1\n\n    x = 2\n",
               "'a' 'b'  'cd'\n", "x = 'a' \\\n    'b'\n", "def f(*a: *b): pass\n", "() = x\n", "del ()\n", "x = \"p'\"\n", "a = b'x' b'y'\n", "x = u'a'\n"]
+    # implicit concatenation of plain literals: value, span and `kind` come from the right pieces (kind from the FIRST literal only)
+    skinds = ["'a'", "u'b'", "r'c\\d'", "U'e'", '"f"', "'''g\nh'''", "''"]
+    for k2 in itertools.product(skinds, repeat=2):
+        progs.append("x = " + " ".join(k2) + "\n")
+    for k3 in itertools.product(skinds[:5], repeat=3):
+        progs.append("f(" + " ".join(k3) + ")\n")
+    progs += ["def f():\n    return u'''doc\n''' 'tail'\n", "x = (b'a'\n     b'b' rb'c')\n"]
+    # input that ends without a newline inside / after multi-line tokens and comments
+    progs += ["x = '''\n#'''", "x = 1\n# c", "x = [1,\n#c\n2]", "if a:\n  b\n  ", "x\n  "]
     # non-ASCII text: identifiers, strings, comments (CPython counts columns in UTF-8 bytes)
     progs += ["x = '\u4e2d' + y\n", "\u00e9t\u00e9 = 1; y = 2\n", "f('\u00fc', b)  # \u00e9\n", "x = 1  # \u4e2d\ny = 2\n", "def \u0192(\u03b1, \u03b2=1):\n    return \u03b1 + \u03b2\n",
               's = """\u00e9\n\u4e2d""" + t\n']
